@@ -93,7 +93,7 @@ func truthOperand(c *Case, prelude *string, name string, v lang.Value, prov stri
 	return nil, false
 }
 
-var truthPositions = []string{"if", "if-else", "if-empty-then", "if-empty-else", "elseif", "elseif-empty", "while", "ternary", "and-left", "and-right", "or-left", "or-right", "not", "not-not", "not-in-if", "not-in-ternary", "not-in-while", "run"}
+var truthPositions = []string{"if", "if-else", "if-empty-then", "if-empty-else", "elseif", "elseif-empty", "while", "ternary", "and-left", "and-right", "or-left", "or-right", "not", "not-not", "not-in-if", "not-in-ternary", "not-in-while", "notnot-in-if", "notnot-in-ternary", "notnot-in-while", "ternary-spells-truth", "not-ternary-spells-truth", "ifelse-spells-truth", "run"}
 
 func truthScript(pos string, e lang.Expr) (string, func(truth bool, v lang.Value) lang.Value, bool) {
 	x := lang.ExprText(lang.Paren{X: e})
@@ -182,6 +182,37 @@ func truthScript(pos string, e lang.Expr) (string, func(truth bool, v lang.Value
 				return lang.Str("T")
 			}
 			return lang.Str("F")
+		}, false
+	case "notnot-in-if", "notnot-in-ternary", "notnot-in-while":
+		// !!v is a boolean in its own right: true for everything but false and null
+		body := `if ( !! ` + x + ` ) { return "T"; } return "F";`
+		switch pos {
+		case "notnot-in-ternary":
+			body = `return !! ` + x + ` ? "T" : "F";`
+		case "notnot-in-while":
+			body = `n = 0; while ( !! ` + x + ` ) { n = n + 1; if ( n >= 1 ) { return "T"; } } return "F";`
+		}
+		return body, func(t bool, v lang.Value) lang.Value {
+			nn := true
+			switch v.K {
+			case lang.KBool:
+				nn = v.B
+			case lang.KNull:
+				nn = false
+			}
+			if nn {
+				return lang.Str("T")
+			}
+			return lang.Str("F")
+		}, false
+	case "ternary-spells-truth":
+		// the idiom that turns any value into a boolean
+		return `return ` + x + ` ? true : false;`, func(t bool, _ lang.Value) lang.Value { return lang.Bool(t) }, false
+	case "not-ternary-spells-truth":
+		return `return ! (` + x + ` ? true : false);`, func(t bool, _ lang.Value) lang.Value { return lang.Bool(!t) }, false
+	case "ifelse-spells-truth":
+		return `function truth(q) { if ( q ) { return true; } else { return false; } } return [truth(` + x + `), ! truth(` + x + `)];`, func(t bool, _ lang.Value) lang.Value {
+			return lang.Array(lang.Bool(t), lang.Bool(!t))
 		}, false
 	case "run":
 		return `return ` + x + `;`, func(t bool, v lang.Value) lang.Value { return v }, true
